@@ -1,4 +1,4 @@
-\* exhaustive, quick: every tree of 3 free blocks and the 2-off/3-on reorganisation, every delivery order,
+\* exhaustive, quick: every tree of 4 free blocks and the 2-off/3-on reorganisation (thorough: every tree of 5), every delivery order,
 \* a crash in any state, every delivery order after the restart
 SPECIFICATION Spec
 CONSTANTS
